@@ -197,8 +197,8 @@ fn display_history(
         if let Some(timestamp) = item.timestamp {
             let local_timestamp = timestamp.with_timezone(&chrono::Local);
             if let Some(time_format) = &config.time_format {
-                let fmt_items = chrono::format::StrftimeItems::new(time_format);
-                formatted_timestamp = local_timestamp.format_with_items(fmt_items).to_string();
+                formatted_timestamp =
+                    brush_core::timing::format_strftime(&local_timestamp, time_format);
             }
         }
 
